@@ -25,7 +25,9 @@ def build(sel: List[int], cur: Cur):
     tname = TARGET_NAMES[rd(sel, cur, len(TARGET_NAMES))]
     decoy = DECOYS[rd(sel, cur, len(DECOYS))]
     qual = QUALS[rd(sel, cur, len(QUALS))]
-    reexport = rd(sel, cur, 3)  # target class re-exported by pkg/__init__: no / by name / with alias
+    # target class re-exported: no / by pkg/__init__ by name / by pkg/__init__ with alias / by name by a package that is no
+    # ancestor of the defining module and whose id has fewer segments but more characters (pkg/long_public_api)
+    reexport = rd(sel, cur, 4)
     decoy_first = decoy is not None and rd(sel, cur, 2) == 1  # the unrelated module is analysed before the target's
     foreign = tmod == "ext/lib"
     if foreign and (reexport or qual != "full"):
@@ -38,7 +40,9 @@ def build(sel: List[int], cur: Cur):
     if tmod == "pkg/m" and reexport:
         raise OutOfRange
     tq = tmod.replace("/", ".") + "." + tname
-    if reexport:
+    if reexport == 3:
+        mk_init_module(api, "pkg/long_public_api", imports=[(tq, None)])
+    elif reexport:
         mk_init_module(api, "pkg", imports=[(tq, "Alias" if reexport == 2 else None)])
     m = mk_module(api, "pkg/m")
 
@@ -68,6 +72,11 @@ def _cause(cfg, convert: bool) -> str:
     """Input class used in labels (first matching feature, most specific first)."""
     if cfg["reexport"] == 2:
         return "re-exported-with-alias"
+    if (cfg["reexport"] == 3 and cfg["qual"] == "bare" and cfg["decoy_first"] and cfg["decoy"][1] == cfg["tname"]
+            and len(cfg["decoy"][0].split("/")) > 2):
+        # the bare reference is resolved to the namesake analysed first; the re-export of the *other* class is then taken
+        # for a re-export of the namesake (re-exports are looked up by class name only)
+        return "bare-reference-resolved-to-deeper-namesake-of-a-re-exported-class"
     if convert and cfg["tname"] == "my_cls":
         return "name-changes-under-conversion"
     if cfg["tmod"] == "pkg/m2":
@@ -126,5 +135,5 @@ def CANDIDATES(func: str):
     import itertools
 
     for sel in itertools.product(range(2), range(len(TARGET_MODULES)), range(len(TARGET_NAMES)), range(len(DECOYS)),
-                                 range(len(QUALS)), range(3), range(2)):
+                                 range(len(QUALS)), range(4), range(2)):
         yield [list(sel) + [0] * 5]
